@@ -144,4 +144,9 @@ View == regs
 \* first are mirror images (used by the exhaustive generation runs only)
 FirstOnFirst == Len(hist) = 0 \/ hist[1].r = Regs[1]
 Emit == Len(hist) < MaxHist \/ (PrintT(<<"B", ToJson(hist)>>) /\ FALSE)
+\* simulation runs: a behaviour is printed once, by a final stuttering step (with the constraint
+\* above TLC would print every candidate successor of the last state, and stop at the first trace)
+SimNext == \/ Len(hist) < MaxHist /\ Next
+           \/ Len(hist) = MaxHist /\ PrintT(<<"B", ToJson(hist)>>) /\ UNCHANGED vars
+SimSpec == Init /\ [][SimNext]_vars
 =============================================================================
